@@ -61,7 +61,7 @@ def outputs(b, c, E, wdir, z_supplied, with_inversion):
     return out
 
 
-def compare(ctx, tag, base, other, field_map, shift, sign, wit, pair, rescue=None):
+def compare(ctx, tag, base, other, field_map, shift, sign, wit, pair, rescue=None, zsolve=None):
     def fld(name, mon, key):
         a, b_ = field_map(base[name]), other[name]
         sc = float(np.max(np.abs(a), initial=0))
@@ -77,11 +77,39 @@ def compare(ctx, tag, base, other, field_map, shift, sign, wit, pair, rescue=Non
     ctx.ratio(f"C09.{tag}:dissipation-field", dev, 1e-9 * sc + 1e-300)
     for nm in ("gen_bulk", "dis_bulk"):
         ctx.close(f"C09.{tag}:bulk-rates", other[nm], base[nm], atol=1e-300, rtol=1e-8, case=wit, key=f"C09:{tag}:bulk")
-    fin = np.isfinite(base["roughness"]) & np.isfinite(other["roughness"])
-    ctx.check(f"C09.{tag}:roughness", bool(np.array_equal(np.isfinite(base["roughness"]), np.isfinite(other["roughness"]))),
-              wit, {"base": base["roughness"], "other": other["roughness"]}, key=f"C09:{tag}:roughness:nan")
-    ctx.close(f"C09.{tag}:roughness", other["roughness"][fin], base["roughness"][fin], atol=0, rtol=1e-6, case=wit,
-              key=f"C09:{tag}:roughness")
+    zb, zo = base["roughness"], other["roughness"]
+    fin = np.isfinite(zb) & np.isfinite(zo)
+    mism = (np.isfinite(zb) != np.isfinite(zo)) | (fin & (np.abs(zo - zb) > 1e-6 * np.abs(zb)))
+    if mism.any():
+        # The implicit roughness equation may have several solutions and its cold-started Newton iteration may run
+        # into the iteration limit (-> NaN); which of these happens can depend on rounding (summation order changes
+        # under rotation). Classify: if each member's answer is also a solution of the OTHER member's equation
+        # (warm start there returns it), or is not a solution of its own equation either (false convergence), the
+        # equation is invariant and only the solver path differs (known finding); anything else is an
+        # unclassified violation.
+        key = f"C09:{tag}:roughness"
+        if zsolve is not None:
+            same_equation = True
+            for i in np.where(mism)[0]:
+                for src, own, dst in ((zb, "base", "other"), (zo, "other", "base")):
+                    if np.isfinite(src[i]):
+                        g = np.where(np.isfinite(src), src, 2e-4)
+                        same = lambda z: bool(np.isfinite(z[i]) and abs(z[i] - src[i]) <= 1e-5 * abs(src[i]))  # noqa
+                        if not same(zsolve(own, g)):
+                            # not even reproduced by its own equation when restarted there: the solver stopped
+                            # on a zero step away from a root (the C10 known finding), nothing to compare
+                            ctx.count("C09.roughness_answers_that_are_not_solutions")
+                            continue
+                        if not same(zsolve(dst, g)):
+                            same_equation = False
+            if same_equation:
+                key = f"C09:{tag}:roughness:solver-path-sensitive"
+        ctx.count("C09.roughness_mismatch_points", int(mism.sum()))
+        ctx.check(f"C09.{tag}:roughness", False, wit, {"base": zb, "other": zo}, key=key)
+    else:
+        ctx.check(f"C09.{tag}:roughness", True, wit, None, key=f"C09:{tag}:roughness")
+        if fin.any():
+            ctx.ratio(f"C09.{tag}:roughness", float(np.max(np.abs(zo[fin] - zb[fin]) / np.abs(zb[fin]))), 1e-6)
     ctx.close(f"C09.{tag}:stress-magnitude", other["stress"], base["stress"], atol=1e-300, rtol=1e-6, case=wit,
               key=f"C09:{tag}:stress")
     for nm, mon in (("stress_dir", "stress-direction"), ("dis_dir", "dissipation-direction")):
@@ -151,6 +179,14 @@ def make_rescue(b, c, E, s_other):
     return rescue
 
 
+def make_zsolve(b, c, E_base, wdir_base, E_other, wdir_other):
+    def zsolve(which, guess):
+        E_, w_ = (E_other, wdir_other) if which == "other" else (E_base, wdir_base)
+        s_ = wl.build(c, E_)
+        return np.asarray(b.generation.roughness(wl.da(c["u10"]), wl.da(w_), s_, roughness_length_guess=wl.da(guess)).values, float)
+    return zsolve
+
+
 def judge(ctx, c):
     pair = c["pair"]
     g, d = pair.split("/")
@@ -189,7 +225,8 @@ def judge(ctx, c):
                             key="C09:exception")
         if ok:
             compare(ctx, "rot", b0, other, lambda a: np.roll(a, k, axis=-1) if a.ndim == 3 else a, k * step, 1.0, wit, pair,
-                    rescue=make_rescue(b, c, E, wl.build(c, np.roll(E, k, axis=-1))) if inv_here else None)
+                    rescue=make_rescue(b, c, E, wl.build(c, np.roll(E, k, axis=-1))) if inv_here else None,
+                    zsolve=make_zsolve(b, c, E, wdir, np.roll(E, k, axis=-1), wdir + k * step))
     if with_inv:
         # the inversion (with and without direction iteration) under EVERY rotation: the place where the seam falls
         # relative to the dissipation and stress directions differs from rotation to rotation
@@ -218,7 +255,8 @@ def judge(ctx, c):
     ok, other = guarded(ctx, "C09.no-exception", lambda: outputs(b, c, E[..., idx], -wdir, base["z_used"], False), wit,
                         key="C09:exception")
     if ok:
-        compare(ctx, "mirror", b0, other, lambda a: a[..., idx] if a.ndim == 3 else a, 0.0, -1.0, wit, pair)
+        compare(ctx, "mirror", b0, other, lambda a: a[..., idx] if a.ndim == 3 else a, 0.0, -1.0, wit, pair,
+                zsolve=make_zsolve(b, c, E, wdir, E[..., idx], -wdir))
 
 
 def make(rng, i, allk):
